@@ -78,7 +78,19 @@ fn append_fresh(scn: &Scenario, trace: &mut Vec<Value>, mode: &str) {
         // in-poll signals are recorded with fn_graph's own events, so that the monitor can tell a function
         // handed out before the signal from one handed out after it
         let inside = mine.iter().any(|st| matches!(st, crate::scenario::Step::Open { signal: true, .. }));
-        solo.phases = vec![Phase::Runs { runs: vec![runs[r - 1].clone()], steps: mine }];
+        let mut solo_cfg = runs[r - 1].clone();
+        if solo_cfg.share {
+            // a run on a shared interruptibility state, alone: the same set-up (a state of its own, reborrowed), and the
+            // signal that was pending in the shared state when it began (see its `call` event) is sent before the call
+            solo_cfg.tx_drop = false;
+            solo_cfg.sync_sig.clear();
+            solo_cfg.pre_signal = trace
+                .iter()
+                .find(|v| v["ev"] == "call" && v["run"] == r)
+                .map(|v| v["pre_signal"] == true)
+                .unwrap_or(false);
+        }
+        solo.phases = vec![Phase::Runs { runs: vec![solo_cfg], steps: mine }];
         let res = run_scenario(&solo, inside, &ExploreOpts::default());
         trace.push(serde_json::json!({"ev":"fresh_begin","of":r,"first":first,"mode":mode}));
         first = false;
@@ -353,6 +365,7 @@ fn cfg(api: &str, mutv: bool, control: bool) -> RunCfg {
         sync_ok: vec![],
         sync_fail: vec![],
         sync_sig: vec![],
+        share: false,
     }
 }
 
@@ -1219,9 +1232,25 @@ pub fn generate(p: &GenParams, out: &mut Out) {
                     3 | 4 => 30 + rng.below(10),
                     _ => 20 + rng.below(if thorough { 70 } else { 60 }),
                 };
-                let shape = rng.below(5);
+                let shape = rng.below(6);
+                // shape 5: several roots, and the root that is handed out first (highest id forward, the mirrored sink in
+                // reverse) fans out -- under a small limit its successors are released while the other roots are still
+                // queued: pressure on the ready channel
+                let (n, pressure) = if shape == 5 {
+                    let roots = 3 + rng.below(8);
+                    let kids = 2 + rng.below(8);
+                    (roots + kids, Some((roots, kids)))
+                } else {
+                    (n, None)
+                };
                 let mut e: Vec<(usize, usize)> = Vec::new();
                 match shape {
+                    5 => {
+                        let (roots, kids) = pressure.unwrap();
+                        for k in 1..=kids {
+                            e.push((roots, roots + k));
+                        }
+                    }
                     0 => {}
                     1 => {
                         for b in 2..=n {
@@ -1259,6 +1288,21 @@ pub fn generate(p: &GenParams, out: &mut Out) {
                 if !streams && p.focus.is_empty() && rng.chance(1, 2) {
                     c.strategy = "none".into();
                     c.pre_signal = false;
+                }
+                if let Some((roots, _)) = pressure {
+                    if !streams {
+                        if !c.api.ends_with("for_each") {
+                            c.api = (*rng.pick(&["for_each", "try_for_each"])).into();
+                            c.control = false;
+                        }
+                        c.limit = *rng.pick(&[1i64, 1, 2, (roots - 2) as i64]);
+                        if c.order == "rev" {
+                            // mirror: the fan-out must be in the streamed direction
+                            for p in e.iter_mut() {
+                                *p = (p.1, p.0);
+                            }
+                        }
+                    }
                 }
                 let mut x = xopts_for(&c, *rng.pick(&[0usize, 2, 1000]));
                 x.fail_bias = x.max_fail > 2;
@@ -1494,6 +1538,25 @@ pub fn generate(p: &GenParams, out: &mut Out) {
                     random_sync(&mut rng, &mut c, n, 2);
                     runs.push(c);
                 }
+                // a quarter of the sequential histories: the runs share ONE interruptibility state (reborrow), so a
+                // signal sent during one run is pending when the next begins
+                let sharing = !overlap && (rng.chance(1, 4) || p.focus == "share");
+                if sharing {
+                    for c in runs.iter_mut() {
+                        if c.is_stream() {
+                            c.api = (*rng.pick(&["fold", "for_each", "try_for_each", "try_fold"])).into();
+                            c.limit = -1;
+                            c.control = false;
+                        }
+                        c.with = true;
+                        c.strategy = "finish".into();
+                        c.k = 0;
+                        c.pre_signal = false;
+                        c.tx_drop = false;
+                        c.sync_sig.clear();
+                        c.share = true;
+                    }
+                }
                 let x = ExploreOpts {
                     max_fail: 2,
                     signals: true,
@@ -1509,6 +1572,11 @@ pub fn generate(p: &GenParams, out: &mut Out) {
                     late: 0,
                     max_signals: 1 + rng.below(3) / 2,
                 };
+                let mut x = x;
+                if sharing {
+                    x.signal_inside = false;
+                    x.max_signals = 1;
+                }
                 let sub = rng.next();
                 if !sel.take() {
                     continue;
